@@ -16,7 +16,10 @@
        (2 q) readGreaterThan | (3 q) SeekGT+Next* | (4) Next*  -> as above with opencls
        (5) dump                                              -> (x<meta> ((id x<block>)...))
    (2 x<blob> (q...))            malformed block: parseIndexBlock, parseIndex, reader queries
-   (3 x<meta> ((id x<blob>)...) (q...))   malformed store: index reader queries *)
+   (3 x<meta> ((id x<blob>)...) (q...))   malformed store: index reader queries
+   (4 x<blob> max entries limit n)  malformed block under a WRITER: newBlockWriter(blob,
+        desc{max,entries}, limit) then n times pop(last()), stopping at the first error
+        -> (opencls) | (0 (summary) (cls summary...)...) *)
 From GV Require Import Lib.Sx Lib.Uvarint PathDB.Index.
 Local Open Scope N_scope.
 
@@ -221,6 +224,15 @@ Definition sdesc (d : desc) : sx := SL [sn (d_max d); sn (d_entries d); sn (d_id
 Definition sx_blk (s : sx) : option (N * list N) :=
   match s with SL [SI id; SB b] => Some (Z.to_N id, b) | _ => None end.
 
+Fixpoint bad_pops (b : bwriter) (n : nat) : list sx :=
+  match n with
+  | O => []
+  | S n' => match bw_pop b (bw_last b) with
+            | Ok b' => SL (SI 0%Z :: bw_summary b') :: bad_pops b' n'
+            | Err e => [SL [SI (err_code e)]]
+            end
+  end.
+
 Definition C19_run (c : sx) : sx :=
   match c with
   | SL [SI 0%Z; SL ops] => SL (block_session (mkBW (mkDesc 0 0 0) [] []) ops)
@@ -253,6 +265,11 @@ Definition C19_run (c : sx) : sx :=
                         map (fun q => SL [read_obs (ir_read_gt r q); index_seek_obs db r q]) ql)
           end
       | _, _ => SErr 2
+      end
+  | SL [SI 4%Z; SB blob; SI mx; SI en; SI limit; SI n] =>
+      match new_block_writer blob (mkDesc (Z.to_N mx) (Z.to_N en) 0) (Z.to_N limit) with
+      | Err e => SL [SI (err_code e)]
+      | Ok b => SL (SI 0%Z :: SL (bw_summary b) :: bad_pops b (Z.to_nat n))
       end
   | _ => SErr 0
   end.
